@@ -41,6 +41,7 @@ class UnionNode(XmlNode):
         "meta",
         "ns_map",
         "position",
+        "scopes",
         "var",
     )
 
@@ -63,6 +64,7 @@ class UnionNode(XmlNode):
         self.config = config
         self.context = context
         self.level = 0
+        self.scopes: list[dict] = []
         self.candidates = self.filter_candidates()
         self.events: list[tuple[str, str, Any, Any]] = []
 
@@ -114,6 +116,10 @@ class UnionNode(XmlNode):
         """
         self.level += 1
         self.events.append(("start", qname, copy.deepcopy(attrs), ns_map))
+        # The node stands in for all its descendants, expose the map of the
+        # innermost open element to handlers that inherit from the parent node
+        self.scopes.append(self.ns_map)
+        self.ns_map = ns_map
         return self
 
     def bind(
@@ -147,6 +153,8 @@ class UnionNode(XmlNode):
 
         if self.level > 0:
             self.level -= 1
+            if self.scopes:
+                self.ns_map = self.scopes.pop()
             return False
 
         self.events.insert(0, ("start", qname, copy.deepcopy(self.attrs), self.ns_map))
